@@ -59,7 +59,7 @@ fn list_strategy() -> BoxedStrategy<ListCase> {
         8 => (sel_strategy(), any::<bool>(), sel_strategy(), any::<bool>()).prop_map(|(p, np, q, nq)| Item::Pair(p, np, q, nq)),
         2 => (sel_strategy(), sel_strategy()).prop_map(|(p, q)| Item::CancelTwo(p, q)),
         2 => (sel_strategy(), sel_strategy(), sel_strategy()).prop_map(|(p1, p2, q)| Item::CancelThree(p1, p2, q)),
-        1 => Just(Item::RepeatPrevious),
+        2 => Just(Item::RepeatPrevious),
     ];
     // mostly short lists; one in six has 8..28 items (up to ~60 pairs) so that any internal batching /
     // windowing of long lists is exercised
@@ -266,6 +266,34 @@ fn check_list(c: &ListCase, info: &mut Info) -> Result<(), String> {
         }
         info.class("prepared-copied-with-clone_from");
     }
+    // aliasing: equal points share ONE prepared element by reference (a key prepared once and paired with many
+    // messages, a message prepared once for many keys), on the G2 side, on the G1 side, or on both, while the
+    // other side keeps one prepared element per pair
+    if n >= 2 && n <= 80 {
+        let first_p: Vec<usize> = (0..n).map(|i| (0..=i).find(|j| pairs[*j].1 == pairs[i].1).unwrap_or(i)).collect();
+        let first_q: Vec<usize> = (0..n).map(|i| (0..=i).find(|j| pairs[*j].3 == pairs[i].3).unwrap_or(i)).collect();
+        let (ap, aq) = ((0..n).any(|i| first_p[i] != i), (0..n).any(|i| first_q[i] != i));
+        for mode in 0..3 {
+            if (mode == 0 && !aq) || (mode == 1 && !ap) || (mode == 2 && !(ap && aq)) {
+                continue;
+            }
+            let refs: Vec<(&crt::G1Prepared, &crt::G2Prepared)> =
+                (0..n).map(|i| (&pp[if mode != 0 { first_p[i] } else { i }], &qp[if mode != 1 { first_q[i] } else { i }])).collect();
+            let f = cr("miller_loop", || Bls12::miller_loop(refs.iter()))?;
+            let e = cr("final_exponentiation", || Bls12::final_exponentiation(&f))?.ok_or("final_exponentiation of a Miller-loop output failed")?;
+            if fq12_m(&e) != want {
+                return Err(format!(
+                    "Miller loop over {} pairs in which equal points share one prepared element by reference ({}) differs from e(g1,g2)^(sum a_i b_i)",
+                    n,
+                    ["G2 side shared, G1 side one element per pair", "G1 side shared, G2 side one element per pair", "both sides shared"][mode]
+                ));
+            }
+            info.class(format!("aliased-prepared-references:{}", ["g2", "g1", "both"][mode]));
+            if mode == 0 && (0..n).any(|i| first_q[i] != i && (0..i).any(|j| first_q[j] == first_q[i] && pairs[j].1 == pairs[i].1 && !pairs[i].1.is_inf() && !pairs[i].3.is_inf())) {
+                info.class("aliased-g2-with-the-same-g1-point-prepared-twice");
+            }
+        }
+    }
     // reuse of the same prepared elements in other orders / sub-lists
     for (rot, rev) in &c.replays {
         if n == 0 {
@@ -303,7 +331,7 @@ pub fn def() -> PropDef {
         needs_pairing: true,
         subs: vec![
             Box::new(crate::engine::EnumSub { name: "long-history", rule: super::longhist::RULE, run: run_long_history, replay: super::longhist::replay, exhaustive: false }),
-            Box::new(crate::engine::EnumSub { name: "two-input-bursts", rule: super::longhist::BURST_RULE, run: run_two_input_bursts, replay: super::longhist::replay_burst, exhaustive: false }),Box::new(Sub { name: "pair-lists", rule: "final_exponentiation(miller_loop(list)) == published^(sum a_i b_i) == product of singles == helpers; the pair list passed as six kinds of iterable (exact and inexact size hints); prepared reuse, prepared elements copied into occupied slots with clone_from", quick: 2_800, thorough: 25_000, strategy: || boxed(list_strategy()), check: check_list })],
+            Box::new(crate::engine::EnumSub { name: "two-input-bursts", rule: super::longhist::BURST_RULE, run: run_two_input_bursts, replay: super::longhist::replay_burst, exhaustive: false }),Box::new(Sub { name: "pair-lists", rule: "final_exponentiation(miller_loop(list)) == published^(sum a_i b_i) == product of singles == helpers; the pair list passed as six kinds of iterable (exact and inexact size hints); prepared reuse, prepared elements copied into occupied slots with clone_from, equal points sharing one prepared element by reference (G2 side, G1 side, both)", quick: 2_800, thorough: 25_000, strategy: || boxed(list_strategy()), check: check_list })],
         assumptions: {
             let mut v = COMMON_ASSUMPTIONS.to_vec();
             v.push("pairing_multi_product is only called with slices of equal length, as the property states");
